@@ -149,7 +149,17 @@ def monitorC03 (script : List Cmd) (iters : List Iter) (d : Nat) : Option String
       | none => some "unparsable-resolved-event"
       | some ev =>
         let t := it.now
-        let live (x : Deliv) : Bool := x.k ≤ k && decide (t < validUntil ds x k)
+        -- usable = more than a second of life left: a record in its last second is a goodbye
+        -- (TTL 0 is kept for one second), a flushed record, or about to expire - the statement's
+        -- "never built from" cases - and the daemon itself never uses such a record
+        -- (the event is assembled somewhere between the packets of iteration `k`: a goodbye or a
+        -- cache-flush of this very iteration may not have been read yet)
+        let live (x : Deliv) : Bool := x.k ≤ k &&
+          (decide (t + 1000 < validUntil ds x k) || (x.k < k && decide (t + 1000 < validUntil ds x (k - 1))) ||
+           -- ... nor a later copy of this iteration that shortens the life (a goodbye after an
+           -- announcement in two packets of one iteration)
+           (ds.any fun y => y.k == k && sameKey y.r x.r && (!(x.r.ty == 1 || x.r.ty == 28) || y.ifi == x.ifi) &&
+              decide (t + 1000 < y.t + 1000 * y.r.ttl)))
         let srvOk := ds.any fun x => live x && x.r.ty == 33 && lower x.r.name == lower ev.fullname &&
           (match x.r.rdata with | .srv _ _ port h => port == ev.port && lower h == lower ev.host | _ => false)
         if ev.host.isEmpty || ev.addrs.isEmpty then some "resolved-without-host-or-address"
@@ -162,10 +172,10 @@ def monitorC03 (script : List Cmd) (iters : List Iter) (d : Nat) : Option String
           | none =>
             let badIf := ev.addrs.find? fun a =>
               a.ifs.any fun ((_, idx) : BList × Nat) =>
-                !(ds.any fun x => x.k ≤ k && x.ifi == idx && (x.r.ty == 1 || x.r.ty == 28) &&
+                !(ds.any fun x => live x && x.ifi == idx && (x.r.ty == 1 || x.r.ty == 28) &&
                     lower x.r.name == lower ev.host && ipOf x.r == some a.ip)
             match badIf with
-            | some a => some s!"resolved-address-tagged-with-interface-it-was-not-received-on ip={hexOfBytes a.ip}"
+            | some a => some s!"resolved-address-tagged-with-interface-where-it-is-not-live ip={hexOfBytes a.ip} t={t}"
             | none =>
               if ev.props.isEmpty then none
               else
